@@ -487,6 +487,44 @@ fn c11_grid(tier: Tier) -> Vec<Program> {
             }
         }
     }
+    // a key written twice with the same bytes where exactly ONE attribute differs (or none):
+    // the second commit's record is what lookups return
+    {
+        let base = |fl: Fl| {
+            let mut s = WriteSpec::simple(Some(0), 0);
+            s.entry = WEntry::Opts;
+            s.time = Some("424242".into());
+            s.metadata = Some(json!({"a": 1}));
+            s.raw_metadata = Some(vec![1, 2, 3]);
+            s.declare = Declare::Exact;
+            Step { op: Op::Write(s), fl }
+        };
+        let variants: Vec<(&str, Box<dyn Fn(&mut WriteSpec)>)> = vec![
+            ("nothing", Box::new(|_s: &mut WriteSpec| {})),
+            ("raw_metadata changed", Box::new(|s: &mut WriteSpec| s.raw_metadata = Some(vec![1, 2, 4]))),
+            ("raw_metadata dropped", Box::new(|s: &mut WriteSpec| s.raw_metadata = None)),
+            ("metadata changed", Box::new(|s: &mut WriteSpec| s.metadata = Some(json!({"a": 2})))),
+            ("metadata dropped", Box::new(|s: &mut WriteSpec| s.metadata = None)),
+            ("time changed", Box::new(|s: &mut WriteSpec| s.time = Some("424243".into()))),
+            ("time left to the clock", Box::new(|s: &mut WriteSpec| s.time = None)),
+            ("size undeclared", Box::new(|s: &mut WriteSpec| s.declare = Declare::None)),
+            ("integrity declared", Box::new(|s: &mut WriteSpec| s.integ = IntegDecl::Correct)),
+            ("two-hash integrity declared", Box::new(|s: &mut WriteSpec| s.integ = IntegDecl::MultiTwoAlgos)),
+            ("data changed", Box::new(|s: &mut WriteSpec| s.blob = 1)),
+        ];
+        for (vi, (_name, f)) in variants.iter().enumerate() {
+            for (fl1, fl2) in [(Fl::Sync, Fl::Sync), (Fl::Async, Fl::Async), (Fl::Sync, Fl::Async), (Fl::Async, Fl::Sync)] {
+                let first = base(fl1);
+                let mut second = base(fl2);
+                if let Op::Write(w) = &mut second.op {
+                    f(w);
+                }
+                // ... and the other way round (the changed one first)
+                let steps = if vi % 2 == 0 { vec![first, second] } else { vec![second, first] };
+                out.push(Program { keys: vec![format!("rewritten-{vi}"), "x".into()], blobs: vec![Blob::new(40, 3), Blob::new(40, 4)], steps });
+            }
+        }
+    }
     // thorough tier: one index record of more than 64 MiB (nothing bounds the size of metadata)
     if tier == Tier::Thorough {
         for fl in [Fl::Sync, Fl::Async] {
